@@ -45,7 +45,11 @@ func vC14Packet() []byte {
 	l := vU8("letter")
 	vAssume(l >= 'a' && l <= 'z' || l >= 'A' && l <= 'Z')
 	q := []byte{1, l, 2, 'e', 'x', 0, 0, vU8("qtype"), 0, 1}
-	switch vChoice("body", 5) {
+	switch vChoice("body", 6) {
+	case 5: // question, one well-formed A record, then 1..N octets of a further record that is cut short
+		m = append(m, q...)
+		m = append(m, 1, l, 2, 'e', 'x', 0, 0, 1, 0, 1, 0, 0, 0, vU8("attl"), 0, 4, 192, 0, 2, vU8("a3"))
+		m = append(m, vNoPtr(vBytes("cutrec", vChoice("ncut", vParam("C14.tail", 3))+1))...)
 	case 0: // header only
 	case 1: // one well-formed question
 		m = append(m, q...)
